@@ -53,9 +53,16 @@ def pipeTags (before after : Pipe) : List String :=
   (if after.closeIndex.isSome && before.closeIndex.isNone then ["close-marked"] else []) ++
   (if after.pastClose && w > 0 then ["wrote-closing"] else [])
 
+def fnv (bs : Bytes) : UInt32 := bs.foldl (fun h b => (h ^^^ b.toUInt32) * 16777619) 2166136261
+
+def hex32 (v : UInt32) : String :=
+  String.ofList ((List.range 8).map fun i => hexDigit ((v.toNat / 16 ^ (7 - i)) % 16))
+
+/-- bytes the client received during the op; large outputs as length + FNV-1a digest -/
 def showOut (before after : Pipe) : List String :=
-  let newly := (after.written.drop before.written.length).map (·.2)
-  ["P out " ++ hexOfBytes newly.flatten] ++ (if before.valid && !after.valid then ["P eof"] else [])
+  let newly := ((after.written.drop before.written.length).map (·.2)).flatten
+  [if newly.length > 4096 then "P out len=" ++ toString newly.length ++ " fnv=" ++ hex32 (fnv newly)
+   else "P out " ++ hexOfBytes newly] ++ (if before.valid && !after.valid then ["P eof"] else [])
 
 def reqLines (startIdx : Nat) (evs : List Ev) : List String :=
   let rs := reqsOf evs
@@ -102,6 +109,29 @@ def stepLine (m : Mode) (line : String) : Mode × List String :=
       if b.isEmpty then (m, ["bad-op"]) else
       let (s', ls) := doSeg s b; (.server s', ls)
     | _, _ => (m, ["bad-op"])
+  | ["doneN", i, n, b] =>
+    match i.toNat?, n.toNat?, b.toNat?, m with
+    | some i, some n, some b, .server s =>
+      if n > 2000000 || b > 255 then (m, ["bad-op"]) else
+      match s.done i (List.replicate n (UInt8.ofNat b)) with
+      | none => (m, ["bad-op"])
+      | some s' => (.server s', ["B doneN " ++ " ".intercalate (pipeTags s.pipe s'.pipe)] ++ showOut s.pipe s'.pipe)
+    | _, _, _, _ => (m, ["bad-op"])
+  | ["cclose"] =>
+    match m with
+    | .server s =>
+      match s.cclose none with
+      | none => (m, ["bad-op"])
+      | some s' => (.server s', ["B cclose " ++ (if s.pipe.valid then "peer-close-live" else "peer-close-after-drop") ++
+                                  (if s.outstanding.isEmpty then "" else " peer-close-outstanding"), "P closed"])
+    | _ => (m, ["bad-op"])
+  | ["dclose", i, h] =>
+    match i.toNat?, bytesOfHex h, m with
+    | some i, some b, .server s =>
+      match s.cclose (some (i, b)) with
+      | none => (m, ["bad-op"])
+      | some s' => (.server s', ["B dclose same-pass-commit-and-peer-close", "P closed"])
+    | _, _, _ => (m, ["bad-op"])
   | ["done", i, h] =>
     match i.toNat?, bytesOfHex h, m with
     | some i, some b, .server s =>
